@@ -124,6 +124,7 @@ class KaniUnit:
     fragments: List[dict] = field(default_factory=list)
     rewrites: List[dict] = field(default_factory=list)
     assumptions: List[str] = field(default_factory=list)
+    auto_files: List[str] = field(default_factory=list)   # repo files searched for free fns / consts the fragments start to call
     engine = "kani"
 
     def dir(self):
@@ -148,9 +149,50 @@ class KaniUnit:
             _write_if_changed(p, text)
 
     def run(self, log):
+        for _round in range(4):
+            self._run_once(log)
+            if not self._pull_missing_items():
+                break
+
+    def _pull_missing_items(self):
+        """Dependency closure: if the fragments now call a free fn / use a const that is not in the unit, extract it
+        verbatim from the same repo files (auto_files) and retry.  A helper introduced by a refactor therefore comes
+        under the same check instead of making the unit undecided."""
+        if not self.auto_files:
+            return False
+        text = open(os.path.join(self.dir(), "kani.out"), errors="replace").read()
+        names = set(re.findall(r"error\[E0425\]: cannot find (?:function|value) `([A-Za-z_0-9]+)` in this scope", text))
+        if not names:
+            return False
+        added = []
+        for n in sorted(names):
+            for f in self.auto_files:
+                got = None
+                for loc in ({"kind": "fn", "name": n}, {"kind": "item", "item": "const", "name": n}, {"kind": "item", "item": "static", "name": n}):
+                    try:
+                        got = extract([{"id": "x", "file": f, "locator": loc}])["x"]
+                        break
+                    except Undecided:
+                        continue
+                if got:
+                    added.append(got)
+                    self.fragments.append(dict(frag_record(got), note="pulled in automatically: `%s` is now referenced by a fragment" % n))
+                    break
+        if not added:
+            return False
+        marker = "// @AUTO_DEPS@"
+        main = "src/lib.rs"
+        if marker not in self.files[main]:
+            self.files[main] += "\n" + marker + "\n"
+        self.files[main] = self.files[main].replace(marker, "\n".join(a["text"] for a in added) + "\n" + marker)
+        self.rewrites.append({"rule": "auto-deps", "before": "unresolved names %s" % sorted(names), "after": "%d items extracted verbatim" % len(added), "times": len(added)})
+        return True
+
+    def _run_once(self, log):
         self.materialise()
         for ob in self.obligations:
             ob.unit, ob.engine = self.name, "kani"
+            ob.result, ob.detail, ob.failed_checks, ob.cex = "undecided", "", [], None
         names = [ob.name for ob in self.obligations]
         cmd = ["cargo", "kani", "-Z", "function-contracts", "-Z", "stubbing", "-Z", "unstable-options",
                "--harness-timeout", "%ds" % self.timeout_s, "--output-format", "terse", "-j", str(max(2, self.jobs)),
